@@ -92,12 +92,13 @@ def gen(seed):
         if not spec['opt'].get('j'):
             spec['opt']['j'] = 2
     spec['plan'] = _ws.order_plan(spec['plan'])
-    return add_pm(spec, seed)
+    return spec
 
 
 def add_pm(spec, seed):
-    """-D (scripted stdin answers 'c'): the first failing test ends the run through EndRun -
-    the verdict must still say that something failed."""
+    """(Not used by gen: with -D the first failing test ends the run through EndRun and
+    run_internal returns False - that is what upstream's own doctests testrunner-debugging*.rst
+    document, so -D is not treated as an execution mode of C02.)"""
     rng = random.Random(seed ^ 0xD)
     if rng.random() < 0.07 and not spec['opt'].get('j') and \
             not any(e['site'] == 'channel' or e['a'] == 'die' for e in spec['plan']):
